@@ -516,6 +516,11 @@ pub fn with_writer(p: &Pkt, var: Variant, f: &mut dyn FnMut(&dyn RtcpPacketWrite
             const LONG_REASON: &str = "this reason is longer than the two hundred and fifty-five bytes a BYE packet can carry: aaaaaaaaaaaaaaaaaaaaaaaaaaaaaaaaaaaaaaaaaaaaaaaaaaaaaaaaaaaaaaaaaaaaaaaaaaaaaaaaaaaaaaaaaaaaaaaaaaaaaaaaaaaaaaaaaaaaaaaaaaaaaaaaaaaaaaaaaaaaaaaaaaaaaaaaaaaaaaaaaaaaaaaaaaaaaaaaaaaaaaaaaaaaaaaaaaaaaaaaaaaaaaaaaaaaaaaaaaaaa";
             if rs && (var.owned || !reason.is_empty()) {
                 b = pr(if ssrcs.len() % 2 == 0 { b.reason(LONG_REASON) } else { b.reason_owned(LONG_REASON) }, on);
+                // ... then a legal one of middling length through the owning setter (whatever storage it leaves behind
+                // must not leak into the next, possibly shorter, reason)
+                if reason.len() % 2 == 0 {
+                    b = pr(b.reason_owned("a previous reason that is still legal"), on);
+                }
             }
             if var.owned {
                 let mut b = pr(if reason.is_empty() { b.reason_owned("") } else { b.reason_owned(reason.as_str()) }, on);
